@@ -1,5 +1,6 @@
 import Driver.IRJson
 import GtirbVerif.Model.Symbols.Delete
+import GtirbVerif.Model.Symbols.Retarget
 
 /-! JSON driver for the delete_symbols model (C19). -/
 namespace Driver.Symbols
@@ -40,8 +41,75 @@ def modJ (m : Mod) : Json :=
     ("cfi", Json.arr (m.cfi.map (fun d => Json.arr #[toJson d.loc, Json.str d.name, toJson d.args,
       match d.sym with | some s => toJson s | none => Json.null])).toArray)]
 
+namespace R
+open GtirbVerif.Retarget
+
+def accOf : Nat → Access
+  | 0 => .controlFlow | 1 => .codeRef | _ => .data
+
+def accJ : Access → Nat
+  | .controlFlow => 0 | .codeRef => 1 | .data => 2
+
+def refOf (v : Json) : Except String Referent := do
+  match v with
+  | Json.null => pure .none
+  | _ =>
+    let a ← v.getArr?
+    let k ← (← at' a 0).getStr?
+    let n ← (← at' a 1).getNat?
+    pure (if k == "c" then .code n else if k == "d" then .dataBlock n else .proxy n)
+
+def modOf (j : Json) : Except String GtirbVerif.Retarget.Mod := do
+  let refs ← (← arr j "refs").mapM (fun p => do
+    let a ← p.getArr?
+    pure ((← (← at' a 0).getNat?), (← refOf (← at' a 1))))
+  let exprs ← (← arr j "exprs").mapM (fun p => do
+    let cb : Option Nat ← match p.getObjVal? "cfg_block" with
+      | .ok Json.null => pure none
+      | .ok v => pure (some (← v.getNat?))
+      | .error _ => pure none
+    pure ({ interval := ← getNat p "interval", off := ← getNat p "off", isAddrAddr := ← getBool p "addraddr",
+            syms := ← getNatList p "syms", addend := ← (← p.getObjVal? "addend").getInt?, attrs := ← getNatList p "attrs",
+            access := accOf (← getNat p "access"), blocks := ← getNat p "blocks", cfgBlock := cb } : GtirbVerif.Retarget.Expr))
+  let cfi ← (← arr j "cfi").mapM (fun p => do
+    let a ← p.getArr?
+    let s : Option Nat ← match (← at' a 1) with
+      | Json.null => pure none
+      | v => pure (some (← v.getNat?))
+    pure ((← (← at' a 0).getNat?), s))
+  let cfg ← (← arr j "cfg").mapM (fun p => do
+    let a ← p.getArr?
+    pure ({ src := ← (← at' a 0).getNat?, dstProxy := ← (← at' a 1).getBool?, dst := ← (← at' a 2).getNat?,
+            type := ← (← at' a 3).getNat?, flags := ← (← at' a 4).getNat? } : GtirbVerif.Retarget.Edge))
+  .ok { refs := refs, exprs := exprs, cfi := cfi, forwarding := ← natNatList j "forwarding", cfg := cfg }
+
+def modJ (m : GtirbVerif.Retarget.Mod) : Json :=
+  Json.mkObj [
+    ("exprs", Json.arr (m.exprs.map (fun e => Json.mkObj [("interval", toJson e.interval), ("off", toJson e.off),
+      ("addraddr", Json.bool e.isAddrAddr), ("syms", toJson e.syms), ("addend", toJson e.addend), ("attrs", toJson e.attrs)])).toArray),
+    ("cfi", Json.arr (m.cfi.map (fun (i, s) => Json.arr #[toJson i, match s with | some y => toJson y | none => Json.null])).toArray),
+    ("forwarding", pairsJ m.forwarding),
+    ("cfg", Json.arr (m.cfg.map (fun e => Json.arr #[toJson e.src, Json.bool e.dstProxy, toJson e.dst, toJson e.type, toJson e.flags])).toArray)]
+
+def rulesOf (j : Json) : Except String (List Rule) := do
+  (← arr j "rules").mapM (fun p => do
+    pure ({ internal := ← getNatList p "internal", external := ← getNatList p "external",
+            access := (← getNatList p "access").map accOf } : Rule))
+
+end R
+
 def handle (op : String) (j : Json) : Option (Except String Json) :=
   match op with
+  | "retarget" => some do
+    let m ← R.modOf (← j.getObjVal? "mod")
+    let rules ← R.rulesOf j
+    let map ← natNatList j "map"
+    match GtirbVerif.Retarget.retarget rules map m with
+    | .ok m' => .ok (Json.mkObj [("mod", R.modJ m')])
+    | .error (.ambiguous w) => .ok (Json.mkObj [("err", Json.str ("AmbiguousIRError: " ++ w))])
+    | .error .notImplemented => .ok (Json.mkObj [("err", Json.str "NotImplementedError")])
+    | .error .multipleRules => .ok (Json.mkObj [("err", Json.str "ValueError: multiple rules matched")])
+    | .error (.assertion w) => .ok (Json.mkObj [("err", Json.str ("AssertionError: " ++ w))])
   | "delete_symbols" => some do
     let m ← modOf (← j.getObjVal? "mod")
     let req ← (← arr j "req").mapM (fun p => do
